@@ -21,6 +21,9 @@ RULE = (
     'A case = (stream, chunking). non-trivial = distinct (stream id, parser-state transition class) pairs where the class is the set of '
     '(position of a chunk end relative to the frame layout: inside prefix k=1..3 / after prefix / inside frame / frame end) it contains'
 )
+RULE += (
+    ' Added after seeded round 9: a reader that recycles one buffer for all chunks; destinations that are typed (2/4/8-byte items) and two-dimensional memoryviews.'
+)
 ASSUMPTIONS = [
     'the codec is a zlib-based stand-in for python-blosc (not installable offline); only the repository framing code is under test',
     'compression_block_size >= itemsize (documented domain)',
